@@ -35,4 +35,16 @@ theorem osv3_ignored : osv3Ignored = (v3Names.drop 8) := by decide +kernel
 theorem osv2_ignored : osv2Ignored = (v2Names.drop 6) := by decide +kernel
 theorem names_len : v2Names.length = 14 ∧ v3Names.length = 22 ∧ v4Names.length = 32 ∧
     (v2GrammarValues.length = 14 ∧ v3GrammarValues.length = 22 ∧ v4GrammarValues.length = 31) := by decide
+/-- `QualitativeScore` on ANY score*10 (also the negative v2 environmental ones): the case list of the switch -/
+theorem rating_all (k : Int) :
+    rating k = if k = 0 then 1 else if k < 40 then 2 else if k < 70 then 3 else if k < 90 then 4 else 5 := by
+  simp only [rating, bandOf, qualCases, qualDefault]
+  by_cases h0 : k = 0
+  · simp [h0]
+  · by_cases h1 : k < 40
+    · simp [h0, h1]
+    · by_cases h2 : k < 70
+      · simp [h0, h1, h2]
+      · by_cases h3 : k < 90 <;> simp [h0, h1, h2, h3]
+
 end ClairModel.Cvss
